@@ -11,6 +11,7 @@ operation between functions of the scope or into a new helper leaves the verdict
 replacing an operation does not.  The rule decides "these strings are cut up the reviewed way", not that the reviewed
 way is right."""
 import collections
+from sa.prog import op_const
 import json
 import os
 import re
@@ -290,3 +291,36 @@ def check_evaluation_sites(prog, chk):
     inventory over the whole library.  A new call evaluates something a second time (random numbers drawn twice) or
     evaluates what should be carried verbatim (a comment, a condition that is an expression already)."""
     return check(prog, chk, [S, "<" + S], "a string that is evaluated (variables substituted, expressions computed)", ops={"eval_attr()"}, rule="A14.evaluation-sites")
+
+
+
+def blank_only_separators(prog, chk, rule="A14.separators"):
+    """wherever the library cuts a string at a literal *set* of characters that contains the blank (a list of numbers,
+    the two values of a shorthand pair), the set contains the other white-space characters an attribute value can hold
+    too (tab, newline, carriage return) - or the same function also cuts at `char::is_whitespace` / split_whitespace.
+    `xy="1<TAB>2"` or a value wrapped over two lines is otherwise one token"""
+    n = 0
+    roots = {}
+    for bd in prog.bodies.values():
+        if bd.unit != "svgdx-lib":
+            continue
+        roots.setdefault(bd.root if bd.root in prog.bodies else bd.id, []).append(bd)
+    for rid, scope in sorted(roots.items(), key=lambda kv: prog.bodies[kv[0]].path):
+        ws_split = any(bd.call_sites(lambda c: c.path.split("::")[-1] in ("split_whitespace", "split_ascii_whitespace") or c.path.endswith(("char::is_whitespace", "char::is_ascii_whitespace", "<impl char>::is_whitespace", "<impl char>::is_ascii_whitespace"))) for bd in scope)
+        for bd in scope:
+            for (x, t, c) in bd.call_sites(lambda c: c.path.startswith(("core::str::<impl str>::split", "core::str::<impl str>::rsplit", "std::str::<impl str>::split")) and "char" in (c.inst or "")):
+                if len(t["args"]) < 2:
+                    continue
+                ch = bd.chase(t["args"][1])
+                chars = None
+                if ch[0] == "rv" and ch[1].get("k") == "aggr" and ch[1].get("ak") == "array":
+                    chars = {(op_const(o) or {}).get("char") for o in ch[1]["ops"]}
+                elif ch[0] == "const" and "array" in ch[1]:
+                    chars = {k.get("char") for k in ch[1]["array"] if isinstance(k, dict)}
+                if not chars or None in chars or " " not in chars or len(chars) < 2:
+                    continue
+                n += 1
+                missing = sorted({"\t", "\n", "\r"} - chars)
+                root = prog.bodies[rid]
+                chk.ob(not missing or ws_split, rule, f"{root.short}:{''.join(sorted(chars))!r}", bd.where(x, t.get("line")), "a string cut at blanks is cut at every white-space character", f"{root.short} cuts a string at {sorted(chars)} only: a blank separates the parts but {missing!r} (tab / newline / carriage return, which an attribute value may contain wherever it may contain a blank) do not - `1<TAB>2` stays one token, so a pair is not split or a number list fails to parse")
+    chk.note(f"{rule}: {n} split(s) on a literal character set containing the blank")
